@@ -6,7 +6,7 @@ for P in "$@"; do for k in 1 2 3; do
   W=/tmp/cb_$$_$RANDOM
   git -C /repo worktree add -q --detach $W HEAD || continue
   if ( cd $W && git apply $D/patch.diff ); then
-    SU=$(cd $W && PYTHONPATH=$W/perception_eval timeout 1500 /venv/bin/python -m pytest -q -p no:cacheprovider --timeout=900 -n 6 2>&1 | tail -1)
+    [ -n "$SKIP_SUITE" ] && SU=skipped || SU=$(cd $W && PYTHONPATH=$W/perception_eval timeout 1500 /venv/bin/python -m pytest -q -p no:cacheprovider --timeout=900 -n 6 2>&1 | tail -1)
     RES=""
     for C in $(/venv/bin/python -c "import json;print(' '.join(c['property_id'] for c in json.load(open('/verif/MANIFEST.json'))['checks']))"); do
       O=$(cd /verif && VERIF_REPO=$W ./check $C --no-evidence 2>&1); RC=$?
